@@ -213,4 +213,22 @@ func init() {
 		},
 		TrustedBase: []string{stdTrusted, "reachability snapshot of package-level state in gosym/rt.go"},
 	})
+
+	reg(&PropertySpec{
+		ID: "C08", Level: "model_checking",
+		Rule: "one state = one feasible path: entry point x stub outcomes (gate lemma) or embedding position x symbolic code bytes (splice lemma); plus one native confirmation run of the built-in x position x syntax matrix",
+		Harnesses: func(tier string) []HarnessSpec {
+			return []HarnessSpec{
+				{Pkg: "internal/validator", Fn: "VerifC08Gate", Reach: []string{"compiled"}, Bounds: map[string]any{"entry_points": 3}},
+				{Pkg: "internal/validator", Fn: "VerifC08Splice", Reach: []string{"spliced"}, Bounds: map[string]any{"code_len": "1..3 symbolic bytes (no $ or newline)", "positions": 8}},
+				{Pkg: "pkg", Fn: "VerifC08NativeMatrix", NativeOnly: true, Bounds: map[string]any{"builtins": 5, "positions": 9, "syntaxes": 3}},
+			}
+		},
+		Assumptions: []string{
+			"ASSUMPTION (dependency): OPA rejects at compile time every module whose AST calls a built-in named in rego.UnsafeBuiltins, whatever the call syntax; the native matrix (5 built-ins x 9 positions x up to 3 syntaxes through the real CompileProfile) confirms it for the linked version but is not the deciding step",
+			"the dangerous built-ins are exactly the five the property lists; each must be registered in the linked OPA (checked natively) so that the deny-list lemma is not vacuous",
+			"splice lemma: embedded code of 1..3 bytes free of `$` and newline; template variables ($node, $result, …) are substituted by design and are outside",
+		},
+		TrustedBase: []string{stdTrusted, "OPA v0.47.0 capability check"},
+	})
 }
